@@ -166,8 +166,12 @@ func runOne(ctx context.Context, sp solverSpec, body string, cfg *solveCfg, id i
 	dt := time.Since(t0).Seconds()
 	s := strings.TrimSpace(out.String())
 	first := s
-	if i := strings.IndexByte(s, '\n'); i >= 0 {
-		first = s[:i]
+	for _, ln := range strings.Split(s, "\n") {
+		ln = strings.TrimSpace(ln)
+		if ln == "unsat" || ln == "sat" || strings.HasPrefix(ln, "unknown") || ln == "timeout" {
+			first = ln
+			break
+		}
 	}
 	switch {
 	case first == "unsat":
